@@ -367,6 +367,10 @@ func (d *Decoder) PeekFileId() (*mesgdef.FileId, error) {
 		if d.err = d.decodeMessage(); d.err != nil {
 			return nil, d.err
 		}
+		if d.cur > d.fileHeader.DataSize { // the message ran past the end of this sequence: what follows it is not ours to read.
+			d.err = fmt.Errorf("message exceeds the data size of its sequence: %w", ErrNotFITFile)
+			return nil, d.err
+		}
 	}
 	return d.fileId, nil
 }
